@@ -15,6 +15,8 @@ def run(ctx):
     configs = ["default", "full"] if ctx.tier == "quick" else ["default", "full", "nobg-full", "single:rolling_file_appender,compound_policy"]
     for cfg in configs:
         p = ctx.prog(cfg)
+        from rules import accessors
+        accessors.rule_fidelity(ctx, p, cfg, "R9", prefix="append::rolling_file::", floor=4, with_build=False)   # the builder keeps the append flag and encoder it is given; LogFile reports the length and path it was made with
         rolling.rule_lock_span(ctx, p, cfg, "R1")
         rolling.rule_branch_order(ctx, p, cfg, "R2")
         rolling.rule_roll_closes_writer(ctx, p, cfg, "R3")
@@ -34,3 +36,4 @@ def run(ctx):
             c07.rule_archive_writes_surface(ctx, p, cfg, "R6e")   # .. and written whole: no bare write, no buffered tail lost in a drop
             c07.rule_roll_moves_file(ctx, p, cfg, "R6f")   # a roll reported as done has taken the file away
             c07.rule_staging_name(ctx, p, cfg, "R6g")   # .. to a name nothing staged earlier still holds
+            c07.rule_one_rotation_at_a_time(ctx, p, cfg, "R6h")   # staged files are shifted into the window in the order they were rolled
